@@ -14,6 +14,7 @@ CHECKS = {
  "C07": ("Per-message equality of the real state setters with a reference transformer (written from the BiDiB message layouts: current-code table, DCC speed byte, function groups, time bytes, diagnostic (key,value) pairs in any order) on an ARBITRARY pre-state of a built configuration, including the frame condition (everything not named is unchanged); conversions as total functions over all 256 inputs. Arbitrary pre-state makes the per-message result inductive over histories of any length.", "DESIGN 4/C07"),
  "C09": ("Every high-level command (switch_point, set_signal, set_peripheral, train speed / calibrated / emergency stop, train peripheral, booster, track output state (_all), request reverser) over a built board+train with symbolic configuration values and argument ids given as arbitrary <=2-character strings: return value, exactly the prescribed captured message(s) with destination/encoding, optimistic state delta, nothing on return 1, locks released.", "DESIGN 4/C09"),
  "C11": ("Lock monitor (balance, self-deadlock, global rank order of all 15+1 locks) over every public high-level command, admin command, state setter, configuration-time add-function and the receiver-side entry points, on an arbitrary state with arbitrary ids; thorough adds every getter, the occupancy handlers and the composed dispatcher.", "DESIGN 4/C11"),
+ "C19": ("Real dispatcher + real mirror encoders + real message construction for occupied / free / multiple (every bitmap size 8..128) / position reports from an arbitrary node against two boards with arbitrary connected / SecAck flags: exactly one mirror to the reporting board with identical number and payload, flushed in the same call; none otherwise.", "DESIGN 4/C19"),
  "C12": ("CBMC pointer/bounds/overflow checks over the three stages of the uplink path with ARBITRARY inputs: every stream of <=8 bytes (+ scaled read buffer for the overflow edge), every packet of <=10 bytes through bidib_split_packet, every exact-size message of 0..9 data bytes of every type through the dispatcher; termination via unwinding assertions.", "DESIGN 4/C12"),
  "C03": ("Inductive step of the per-node budget machine (bidib_node_try_send / bidib_node_state_update incl. expiry and release of held messages) from an arbitrary valid node state with <=3 outstanding and <=2 held messages, all request/answer types, clock values; bounded histories from the real initial state.", "DESIGN 4/C03"),
 }
